@@ -48,6 +48,8 @@ use crate::RefCnt;
 const NODE_UNUSED: usize = 0;
 const NODE_USED: usize = 1;
 const NODE_COOLDOWN: usize = 2;
+/// A node in cooldown that somebody is just deciding whether it can be released.
+const NODE_CHECKING: usize = 3;
 
 /// The head of the debt linked list.
 static LIST_HEAD: AtomicPtr<Node> = AtomicPtr::new(ptr::null_mut());
@@ -124,20 +126,33 @@ impl Node {
     ///
     /// See the ABA protection at the [helping].
     fn check_cooldown(&self) {
-        // Check if the node is in cooldown, for two reasons:
+        // Take the node out of the cooldown state for the time we look at the writers, for three
+        // reasons:
         // * Skip most of nodes fast, without dealing with them.
-        // * More importantly, sync the value of active_writers to be at least the value when the
-        //   cooldown started. That way we know the 0 we observe happened some time after
-        //   start_cooldown.
-        if self.in_use.load(Acquire) == NODE_COOLDOWN {
+        // * Sync the value of active_writers to be at least the value when the cooldown started.
+        //   That way we know the 0 we observe happened some time after start_cooldown.
+        // * Nobody can claim the node while we hold it (it is not NODE_UNUSED). Otherwise it
+        //   could go through a whole another round of being claimed, used and sent to cooldown
+        //   between our look at active_writers and the moment we release it, and we would release
+        //   it on the strength of a stale 0 ‒ with a writer that came in during that round still
+        //   inside.
+        if self
+            .in_use
+            .compare_exchange(NODE_COOLDOWN, NODE_CHECKING, Acquire, Relaxed)
+            .is_ok()
+        {
             // The rest can be nicely relaxed ‒ no memory is being synchronized by these
             // operations. We just see an up to date 0 and allow someone (possibly us) to claim the
-            // node later on.
-            if self.active_writers.load(Relaxed) == 0 {
-                let _ = self
-                    .in_use
-                    .compare_exchange(NODE_COOLDOWN, NODE_UNUSED, Relaxed, Relaxed);
-            }
+            // node later on. If there's still somebody inside, it goes back to the cooldown.
+            let next = if self.active_writers.load(Relaxed) == 0 {
+                NODE_UNUSED
+            } else {
+                NODE_COOLDOWN
+            };
+            let prev = self
+                .in_use
+                .compare_exchange(NODE_CHECKING, next, Relaxed, Relaxed);
+            debug_assert!(prev.is_ok(), "Somebody took a node while it was being checked");
         }
     }
 
